@@ -151,6 +151,8 @@ pub struct PendingGate {
 pub struct Lab {
     pub pending: Vec<PendingGate>,
     pub released: HashSet<usize>,
+    /// labels of the gates in `released` (released by the schedule, not yet passed by their future)
+    pub released_labels: HashMap<usize, String>,
     pub next_gate: usize,
     pub plan: HashMap<String, Vec<PlanEntry>>,
     pub inv: HashMap<String, usize>,
@@ -210,6 +212,7 @@ impl Future for Gate {
             }
             Some(id) => {
                 if s.released.remove(&id) {
+                    s.released_labels.remove(&id);
                     s.activity += 1;
                     Poll::Ready(())
                 } else {
